@@ -187,7 +187,7 @@ def run(ctx):
     mc(ctx)
     q = ctx.quick
     nshard = 4 if q else 24
-    per = 800 if q else 8000
+    per = 800 if q else 6000
     jobs = [("c03", ["--mode", "random", "--n", per], "rand%02d.ndjson" % i,
              {"extra_env": {"VERIF_SEED": str(ctx.seed * 1000 + i)}}) for i in range(nshard)]
     jobs.append(("c03", ["--mode", "corpus", "--in", CORPUS], "corpus.ndjson"))
